@@ -23,10 +23,25 @@ fn enc_line(ty: &Ty, v: &Sx) -> (String, Option<Vec<u8>>) {
     }
 }
 
+/// decode without printing the value (known finding F30: the decoded value is far larger than the input)
+fn dec_quiet_line(ty: &Ty, bytes: &[u8]) -> String {
+    reset_all();
+    let mut ctx = DeserializationContext::new(bytes);
+    window_begin();
+    let r = decode(ty, &mut ctx);
+    window_end();
+    match r {
+        Ok(_) => "ok".into(),
+        Err(e) => format!("err {}", err_class(&e)),
+    }
+}
+
 fn dec_line(ty: &Ty, bytes: &[u8]) -> String {
     reset_all();
     let mut ctx = DeserializationContext::new(bytes);
+    window_begin();
     let r = decode(ty, &mut ctx);
+    window_end();
     match r {
         Ok(v) => {
             let mut rest = 0usize;
@@ -154,6 +169,11 @@ pub fn cases(args: &[String]) {
                 let bytes = unhex(sx[1].atom());
                 guarded(std::panic::AssertUnwindSafe(move || dec_line(&ty, &bytes)))
             }
+            "decq" => {
+                let ty = parse_ty(&sx[0]);
+                let bytes = unhex(sx[1].atom());
+                guarded(std::panic::AssertUnwindSafe(move || dec_quiet_line(&ty, &bytes)))
+            }
             "rt" => {
                 // encode, then decode the encoding followed by a suffix
                 let ty = parse_ty(&sx[0]);
@@ -176,7 +196,7 @@ pub fn cases(args: &[String]) {
             }
             _ => panic!("bad command {cmd}"),
         };
-        let alloc = if with_alloc && cmd != "E" && cmd != "E2" { format!(" A{}", max_req()) } else { String::new() };
+        let alloc = if with_alloc && cmd != "E" && cmd != "E2" { format!(" A{},{}", max_req(), window_peak()) } else { String::new() };
         match res {
             Ok(s) => writeln!(out, "{s}{alloc}").unwrap(),
             Err(p) => writeln!(out, "panic {}{alloc}", p.replace('\n', " ")).unwrap(),
